@@ -342,4 +342,13 @@ def rule_queue_only_drained_by_the_sender(ctx):
     c05b(ctx)
 
 
-RULES = [('C10.a', rule_a), ('C10.b', rule_b), ('C10.c', rule_c), ('C05.a', rule_order), ('C03.c', rule_d), ('C10.d', rule_e), ('C10.a', rule_no_subscriber), ('C06.e', rule_small_publishers), ('C01.h', rule_adapter_cancellation), ('C05.b', rule_queue_only_drained_by_the_sender)]
+
+def rule_reactions(ctx):
+    """(shared C01.f)  What a handler does on each frame it receives is what the protocol tables say - in particular a
+    requester that receives ERROR on a channel does not silently close its own sending direction, which would leave the
+    responder waiting for a COMPLETE that never comes (rules/c01.py)."""
+    from .c01 import rule_g as c01f
+    c01f(ctx)
+
+
+RULES = [('C10.a', rule_a), ('C10.b', rule_b), ('C10.c', rule_c), ('C05.a', rule_order), ('C03.c', rule_d), ('C10.d', rule_e), ('C10.a', rule_no_subscriber), ('C06.e', rule_small_publishers), ('C01.h', rule_adapter_cancellation), ('C05.b', rule_queue_only_drained_by_the_sender), ('C01.f', rule_reactions)]
